@@ -441,29 +441,31 @@ class Bin(Factory, Container):
         subweights[selection] = 0.0
         self.overflow._numpy(data, subweights, shape)
 
-        if (
-            all(isinstance(value, Count) and value.transform is identity for value in self.values)
-            and np.all(np.isfinite(q))
-            and np.all(np.isfinite(weights))
-        ):
-            # Numpy defines histograms as including the upper edge of the last bin only, so drop that
-            weights[q == self.high] == 0.0
+        # the same index as bin(): floor(num * (q - low) / (high - low)), clamped to the last bin;
+        # rows outside [low, high) (the NaN rows were moved to high above) get no bin
+        inrange = np.greater_equal(q, self.low)
+        np.bitwise_and(inrange, np.less(q, self.high), inrange)
+        index = np.array(q, dtype=np.float64)
+        index[~inrange] = self.low
+        np.subtract(index, self.low, index)
+        np.multiply(index, self.num, index)
+        np.divide(index, self.high - self.low, index)
+        np.floor(index, index)
+        np.minimum(index, self.num - 1, index)
+        index = np.array(index, dtype=int)
+        index[~inrange] = -1
 
-            h, _ = np.histogram(q, self.num, (self.low, self.high), weights=weights)
+        if all(isinstance(value, Count) and value.transform is identity for value in self.values) and np.all(
+            np.isfinite(weights)
+        ):
+            h = np.bincount(index[inrange], weights=weights[inrange], minlength=self.num)
 
             for hi, value in zip(h, self.values):
                 value.fill(None, float(hi))
 
         else:
-            q = np.array(q, dtype=np.float64)
-            np.subtract(q, self.low, q)
-            np.multiply(q, self.num, q)
-            np.divide(q, self.high - self.low, q)
-            np.floor(q, q)
-            q = np.array(q, dtype=int)
-
-            for index, value in enumerate(self.values):
-                np.not_equal(q, index, selection)
+            for i, value in enumerate(self.values):
+                np.not_equal(index, i, selection)
                 subweights[:] = weights
                 subweights[selection] = 0.0
                 value._numpy(data, subweights, shape)
